@@ -12,7 +12,7 @@ RULE = ("random programs (histories) of 8-40 operations over the heap alphabet (
         "executed while >= 2 other live objects existed")
 ASSUMED = ["element values are None, ints and integral floats; other value types move through the same code paths",
            "CPython: an object dies when its last reference goes (reference cycles are made on purpose to delay it)"]
-MIX = {"fillna_w": 2, "fillna": 1, "dropna": 1, "vcat": 2, "newvec": 3, "newtab_dict": 2, "newtab_vecs": 2, "copy": 2, "slice": 2, "mask": 1, "colview": 4, "selcols": 1,
+MIX = {"sel2d": 3, "window": 2, "fillna_w": 2, "fillna": 1, "dropna": 1, "vcat": 2, "newvec": 3, "newtab_dict": 2, "newtab_vecs": 2, "copy": 2, "slice": 2, "mask": 1, "colview": 4, "selcols": 1,
        "stack": 2, "append": 1, "join": 1, "sort": 1, "math": 1, "transpose": 1, "setv": 8, "sett": 4, "setattr": 3,
        "rename": 1, "fp": 1, "read": 1, "drop": 1}
 ORACLE_KEYS = ("C01",)
